@@ -368,6 +368,7 @@ impl<D: Distance> Writer<D> {
                 .remap_key_type::<PrefixCodec>()
                 .prefix_iter(rtxn, &Prefix::item(self.index))?
                 .remap_key_type::<KeyCodec>(),
+            dimensions: self.dimensions,
         })
     }
 
